@@ -224,7 +224,16 @@ impl<'c, Q: Queue> Interp<'c, Q> {
             self.fails.clear();
             return None;
         }
-        let fails = std::mem::take(&mut self.fails);
+        let mut fails = std::mem::take(&mut self.fails);
+        // the raw tables are an alarm only where a property speaks about them (C04); elsewhere the
+        // hook is a search accelerator and a table anomaly must not end the case
+        if !self.owns(Group::Tables, self.opname) {
+            fails.retain(|f| f.0 != Group::Tables);
+            if fails.is_empty() {
+                self.stats.hit("table_anomaly_ignored");
+                return None;
+            }
+        }
         let mk = |f: &RawFail, s: &Self| Failure {
             group: f.0,
             clause: f.1,
